@@ -128,6 +128,12 @@ def d1(cx: Cx, ob: Ob) -> None:
             line = stores[0].line
             ob.site(f"{where(fn, line)} {fn.qualname}", f"update path: synonyms := {show(alg.heap['uri_prefix_synonyms'])[:70]}; canonical := {show(alg.heap['uri_prefix'])[:30]}")
             try:
+                ct = alg.canonical_term()
+                if ct != new and op(ct) == "call" and callee_name(ct) in set(FUNCS.values()) - {helper}:
+                    # translated into the sibling remapping and delegated: the new value is what the sibling's
+                    # helper answers for a derived mapping
+                    ob.undecide(f"{fname} delegates to the sibling remapping (the new URI prefix is `{show(ct)[:50]}` of a derived mapping): that the translation addresses the same records is not decided")
+                    continue
                 if alg.canonical_term() != new:
                     ob.violate(fn.qualname, where(fn, line), f"{fname}: after the update the canonical URI prefix is `{show(alg.canonical_term())[:50]}`, not the mapped new one", detail="canonical")
                 for val in alg.rows():
@@ -142,7 +148,11 @@ def d1(cx: Cx, ob: Ob) -> None:
             except Undecided as e:
                 ob.undecide(f"{fname}: {e}")
         if n_update == 0:
-            ob.violate(fn.qualname, fn.where, f"{fname} has no path that updates a record", detail="no-update-path")
+            elsewhere = [ev for ev, _ in s.walk() if ev.kind == "store" and op(ev.a) == "attr" and ev.a[2] in ("uri_prefix", "uri_prefix_synonyms")]
+            if elsewhere:
+                ob.undecide(f"{fname} updates records at line {elsewhere[0].line}, but not a copy of the record its main loop iterates (decisions and copies are made in separate passes): the set algebra of that form is not analysed")
+            else:
+                ob.violate(fn.qualname, fn.where, f"{fname} has no path that updates a record", detail="no-update-path")
 
 
 def _worlds():
